@@ -1,6 +1,6 @@
 CONSTANTS
   MaxLen = 4
-  Kinds = {"flip", "toggle", "get", "total", "mark", "mode", "boom"}
+  Kinds = {"flip", "toggle", "get", "total", "mark", "mode", "boom", "note"}
 SPECIFICATION Spec
 INVARIANT Emit
 CHECK_DEADLOCK FALSE
